@@ -274,6 +274,19 @@ def run_history(c):
     tmp = tempfile.mkdtemp(prefix="verif_c13_")
     out = {}
     try:
+        if c.get("similar_first"):
+            # the FIRST design of this process has the same fields, heights and flow but other grout / pipe conductivities;
+            # the check compares the design that follows with the same configuration run in a process of its own
+            sim0 = json.loads(json.dumps(cfg))
+            sim0["grout"]["conductivity"] = cfg["grout"]["conductivity"] * 2.0
+            for kk in ("conductivity", "conductivity_inner", "conductivity_outer"):
+                if kk in sim0["pipe"]:
+                    sim0["pipe"][kk] = sim0["pipe"][kk] * 1.5
+            gs0 = make_manager(sim0)
+            try:
+                gs0.find_design()
+            except ValueError:
+                pass
         g0 = make_manager(cfg)
         g0.find_design()
         base = result_key(g0, os.path.join(tmp, "base"))
